@@ -5,7 +5,7 @@ from oracle_util import *  # noqa
 from protocol import from_real, KEYS
 
 ID = "C10"
-LEAN_MODULE = ["SCoda.Props.C10", "SCoda.Props.C11b", "SCoda.Props.ElemTie", "SCoda.Props.Gaps"]
+LEAN_MODULE = ["SCoda.Props.C10", "SCoda.Props.C11b", "SCoda.Props.ElemTie", "SCoda.Props.Gaps", "SCoda.Props.StaticLink"]
 LEVEL = "proof"
 CLAUSES = [
     ("an accepted bar lasts exactly numerator*4/denominator quarter notes (its capacity in ticks, the int-typed value of the Python expression)",
@@ -31,6 +31,8 @@ CLAUSES = [
      ["SCoda.ElemTie.barInit_eq", "SCoda.ElemTie.barInit_toBar", "SCoda.ElemTie.barInit_flags", "SCoda.ElemTie.barCopy_toBar",
       "SCoda.ElemTie.barCopy_constructed", "SCoda.ElemTie.barTranspose_eq", "SCoda.ElemTie.barIsEmpty_eq", "SCoda.ElemTie.barsToSequence_eq",
       "SCoda.ElemTie.barsToSequence_constructed", "SCoda.ElemTie.pyIntOf_barCap", "SCoda.ElemTie.translated_covered"]),
+    ('the link through which the translated sequences_split_bars reads the signature and key queues (AbsoluteSequence.get_message_times_of_type, a hand-written definition in Model/StaticLib.lean) is what the TRANSLATED method computes on a freshly built list, read back through the heap (audit round 3 R1: an edit of that method now breaks this obligation)',
+     ["SCoda.StaticLink.timesOfType_link", "SCoda.AbsTie2.getMessageTimesOfType_eq", "SCoda.AbsTie2.timesOfType_init"]),
 ]
 RULE = ("relative sequences shorter than / equal to / longer than the capacity, with zero, one matching, one conflicting "
         "or two signature events, x 12 signatures x keys; non-trivial = sequence has notes or a signature event")
